@@ -53,8 +53,8 @@ func (c *curFile) Set(harness, config string, data []byte) {
 		return
 	}
 	m := c.m
-	if len(data) > curSize-512 {
-		data = data[:curSize-512]
+	if len(data) > prevOff-512 {
+		data = data[:prevOff-512]
 	}
 	binary.LittleEndian.PutUint32(m[0:], uint32(len(harness)))
 	binary.LittleEndian.PutUint32(m[4:], uint32(len(config)))
@@ -67,9 +67,26 @@ func (c *curFile) Set(harness, config string, data []byte) {
 	copy(m[p:], data)
 }
 
+// prevOff: second half of the mapping holds the input the same reused parser state
+// processed right before the current one (sessions that reuse one object across inputs).
+const prevOff = curSize / 2
+
+// SetPrev records the previous input of the session the next case runs in.
+func (c *curFile) SetPrev(data []byte) {
+	if c == nil || c.m == nil {
+		return
+	}
+	if len(data) > curSize/2-16 {
+		data = nil
+	}
+	binary.LittleEndian.PutUint32(c.m[prevOff:], uint32(len(data)))
+	copy(c.m[prevOff+4:], data)
+}
+
 type curCase struct {
 	harness, config string
 	data            []byte
+	prev            []byte
 }
 
 func readCur(path string) curCase {
@@ -86,8 +103,14 @@ func readCur(path string) curCase {
 	if cl > 120 {
 		cl = 120
 	}
-	if dl > len(b)-252 {
-		dl = len(b) - 252
+	if dl > prevOff-252 {
+		dl = prevOff - 252
 	}
-	return curCase{harness: string(b[12 : 12+hl]), config: string(b[132 : 132+cl]), data: append([]byte(nil), b[252:252+dl]...)}
+	cc := curCase{harness: string(b[12 : 12+hl]), config: string(b[132 : 132+cl]), data: append([]byte(nil), b[252:252+dl]...)}
+	if len(b) >= curSize {
+		if pl := int(binary.LittleEndian.Uint32(b[prevOff:])); pl > 0 && pl <= curSize/2-16 {
+			cc.prev = append([]byte(nil), b[prevOff+4:prevOff+4+pl]...)
+		}
+	}
+	return cc
 }
